@@ -515,6 +515,11 @@ int main(int argc, char **argv)
                 fprintf(stderr, "usage: kprobe script result\n");
                 return 2;
         }
+#ifdef HEAP_ACCOUNT
+        /* kalign logs to stdout: give stdio a static buffer so that its one-time allocation is not counted */
+        static char stdout_buf[1 << 16];
+        setvbuf(stdout, stdout_buf, _IOFBF, sizeof(stdout_buf));
+#endif
         sf = fopen(argv[1], "r");
         out = fopen(argv[2], "w");
         if (!sf || !out) {
